@@ -26,6 +26,11 @@ pub trait Model {
     fn step(&self, s: &Self::State, a: &Self::Action) -> Option<Self::State>;
     /// Invariants of state `s` reached by `path` (violations are reported with that path).
     fn check(&self, s: &Self::State, last: Option<(&Self::State, &Self::Action)>) -> Vec<BfsViol>;
+    /// Checks of one transition s --a--> t, evaluated on EVERY edge (also edges into already
+    /// visited states, where `check` is not called again).
+    fn check_transition(&self, _s: &Self::State, _a: &Self::Action, _t: &Self::State) -> Vec<BfsViol> {
+        Vec::new()
+    }
     /// Named predicates counted over all states (non-vacuity witnesses).
     fn witnesses(&self, _s: &Self::State) -> Vec<&'static str> {
         Vec::new()
@@ -103,6 +108,14 @@ pub fn search<M: Model>(name: &str, m: &M, max_depth: usize, max_states: usize) 
         for a in m.actions(&s) {
             let Some(t) = m.step(&s, &a) else { continue };
             res.transitions += 1;
+            let tv = m.check_transition(&s, &a, &t);
+            if !tv.is_empty() {
+                // report with the path to s extended by a: register t temporarily as a node
+                nodes.push((t.clone(), Some((i, a.clone())), d + 1));
+                let j = nodes.len() - 1;
+                report(&mut res, &nodes, j, tv);
+                nodes.pop();
+            }
             if index.contains_key(&t) {
                 continue;
             }
